@@ -184,8 +184,14 @@ class ArrayUnionMatcher(CombinationMatcher):
         # score can legitimately be zero or negative)
         self._has = array("B", (0 for _ in xrange(self._partsize)))
         self._max_quality = None
+        # Whether quality is supported is decided before the sub-matchers are
+        # read ahead (an exhausted sub-matcher no longer objects)
+        self._supports_quality = CombinationMatcher.supports_block_quality(self)
         self._docnum = self._min_id()
         self._read_part()
+
+    def supports_block_quality(self):
+        return self._supports_quality
 
     def __repr__(self):
         return ("%s(%r, boost=%f, scored=%r, partsize=%d)"
